@@ -29,7 +29,7 @@ def main(ctx):
     with ThreadPoolExecutor(2) as ex:
         futs = [ex.submit(run, i, c) for i, c in enumerate(units)]
         scale = sandbox.time_scale()
-        rc, hs, log = sandbox.run_driver('harness.queue_main', [ctx.tier],
+        rc, hs, log = sandbox.run_driver_patient('queue', 'harness.queue_main', [ctx.tier],
                                          timeout=(900 if thorough else 400) * scale,
                                          env={'VERIF_TIME_SCALE': str(scale)})
         for i, (c, f) in enumerate(zip(units, futs)):
